@@ -25,7 +25,8 @@ def main():
     ctx = core.Ctx(pid, args.tier, seed, mod.LEVEL)
     try:
         if args.replay:
-            return mod.replay(ctx, args.replay)
+            rp = args.replay if os.path.isabs(args.replay) else os.path.join(os.environ.get("VERIF_CALLER_CWD", core.VERIF), args.replay)
+            return mod.replay(ctx, rp)
         return mod.run(ctx)
     except core.HarnessError as e:
         print("HARNESS-ERROR property=%s %s" % (pid, e))
